@@ -353,7 +353,7 @@ def merge_flag(keys, block, table, old, upto=None):
 
 c = contract(G + "_merge_information_forward",
              params={"self": SELF, "analysis_keys": KEYS, "block": BB, "global_reachout": TABLE}, returns=T.Bool,
-             modifies=[CELLS, "param:global_reachout"], tags=["C01", "C03", "C06", "C07", "C08", "C09", "C10"])
+             modifies=[CELLS, "param:global_reachout"], tags=["C01", "C03", "C06", "C07", "C08", "C09", "C10", "C14"])
 c.loop_havoc = {1: [CELLS]}
 requires(c, "pred_typed", lambda self, block: _blocks_typed(PBG_LEN, PBG_AT, fn_of(self), block))
 requires(c, "keys_distinct", lambda analysis_keys: keys_distinct(analysis_keys))
@@ -400,7 +400,7 @@ def _bw_requires(self, block):
 
 c = contract(G + "_merge_information_backward",
              params={"self": SELF, "analysis_keys": KEYS, "block": BB, "global_liveout": TABLE}, returns=T.Bool,
-             modifies=[CELLS, "param:global_liveout"], tags=["C01", "C03", "C06", "C07", "C08", "C09", "C10"])
+             modifies=[CELLS, "param:global_liveout"], tags=["C01", "C03", "C06", "C07", "C08", "C09", "C10", "C14"])
 c.loop_havoc = {1: [CELLS]}
 requires(c, "succ_typed", lambda self, block: _blocks_typed(NBG_LEN, NBG_AT, fn_of(self), block))
 requires(c, "keys_distinct", lambda analysis_keys: keys_distinct(analysis_keys))
@@ -427,3 +427,258 @@ invariant(c, 1, "key", lambda it, i, analysis_keys, block, global_liveout, updat
     updated.term == merge_flag(analysis_keys, block, global_liveout, entry, upto=i.term)), label="flag_so_far")
 must_fail(c, "never_updated", lambda result: Not(result))
 must_fail(c, "always_updated", lambda result: result)
+
+
+# ---- _block_level_constraints -----------------------------------------------------------------------------------------------
+from contracts.generic import admits, VISIT                      # noqa: E402
+from contracts.stack_ast import nz, nzq                           # noqa: E402
+from spec.ghost import keydef                                     # noqa: E402
+from pyvc.values import VStr, VAbs, from_term                     # noqa: E402
+from pyvc.execbase import TYPEOF                                  # noqa: E402
+
+SVT = T.RefU("KnownStackValue", "UnknownStackValue")
+SVOF = z3.Function("SVOF", z3.IntSort(), z3.IntSort())           # the stack-AST node of an instruction
+C11 = ("the stack AST of a block is faithful (C11: decided by the stack-effect table contracts and the bounded stackcheck); "
+       "naming: get_stack_value_for_ins(ins) is the node SVOF(ins)")
+c = contract("tealer/analyses/utils/stack_ast_builder.py::get_stack_value_for_ins", params={"ins": T.Ref("Instruction")},
+             returns=T.Ref("KnownStackValue"), trusted=True, trusted_reason=C11, tags=["C11"])
+ensures(c, "name", lambda ins, result: VBool(result.term == SVOF(ins.term)), naming=True)
+ensures(c, "one_operand", lambda ins, result: Implies(IsInstance(ins, ("Assert", "Return", "BZ", "BNZ")), lambda: Len(result.args) == 1))
+
+
+def _isinst(term, names):
+    ctx = current()
+    ct = ctx.ex.ct
+    return z3.Or([z3.And(TYPEOF(term) >= ct.lo[ct.cls(n)], TYPEOF(term) < ct.hi[ct.cls(n)]) for n in names])
+
+
+def arg0_of(ins_term):
+    """the first operand node of the instruction's stack-AST node, as a value of type known|unknown stack value"""
+    ctx = current()
+    K = ctx.ex.ct.cls("KnownStackValue")
+    args, st2 = ctx.ex.read_field(VRef(SVOF(ins_term), K, ctx.ex), K, "_args", ctx.st)
+    return ctx.ex.list_get(args, 0, ctx.st)
+
+
+def passes(v, ins_term):
+    """visit v gets past instruction `ins`: an assert / return whose operand is known sees a non-zero operand; no err"""
+    a0 = arg0_of(ins_term)
+    known = IsInstance(a0, "KnownStackValue").term
+    return z3.And(z3.Implies(z3.And(_isinst(ins_term, ["Assert", "Return"]), known), nzq(v, a0).term),
+                  z3.Not(_isinst(ins_term, ["Err", "TealerCustomErrInstruction"])))
+
+
+def pass_prefix(v, block, upto):
+    ctx = current()
+    ins_list = block._instructions
+    m = z3.Int(fresh_name("pm"))
+    im = ctx.ex.list_get(ins_list, m, ctx.st).term
+    return z3.ForAll([m], z3.Implies(z3.And(m >= 0, m < upto), passes(v, im)))
+
+
+def bc_inner(self, kterm):
+    return inner_of(self._block_contexts, kterm)
+
+
+def cell_ok(self, kterm, block, v, upto):
+    """P(k, m): the cell _block_contexts[k][block] exists and admits every visit that gets past the first m instructions"""
+    ctx = current()
+    key = VStr(kterm)
+    cell = VAbs(A, dsel(bc_inner(self, kterm), block.term))
+    return z3.And(z3.Select(ctx.ex.dict_dom(self._block_contexts, ctx.st), kterm), dhas(bc_inner(self, kterm), block.term),
+                  z3.Implies(z3.And(keydef(v, key).term, pass_prefix(v, block, upto)), admits(key, cell, v).term))
+
+
+def bc_injective(self):
+    """different keys of _block_contexts hold different dict objects, all existing already"""
+    ctx = current()
+    st = ctx.st
+    dom, mp = ctx.ex.dict_dom(self._block_contexts, st), ctx.ex.dict_map(self._block_contexts, st)
+    k1, k2 = z3.String(fresh_name("ik")), z3.String(fresh_name("ik"))
+    return z3.And(z3.ForAll([k1, k2], z3.Implies(z3.And(z3.Select(dom, k1), z3.Select(dom, k2), k1 != k2),
+                                                 z3.Select(mp, k1) != z3.Select(mp, k2))),
+                  z3.ForAll([k1], z3.Implies(z3.Select(dom, k1), z3.And(z3.Select(mp, k1) > 0, z3.Select(mp, k1) < st.alloc_ptr()))))
+
+
+def all_cells_ok(self, keys, block, v, upto, upto_keys=None):
+    return _all_j(keys, lambda j, k: cell_ok(self, k, block, v, upto), upto_keys)
+
+
+OUTER = ["D.map:String->Int", "D.dom:String"]
+c = contract(G + "_block_level_constraints", params={"self": SELF, "analysis_keys": KEYS, "block": BB}, returns=T.NoneT,
+             ghost={"v": VISIT}, modifies=[CELLS, "D.dom:Int"] + OUTER, tags=["C01", "C06", "C07", "C08", "C09", "C10"])
+for _k in (1, 2, 3, 4, 5, 6):
+    c.loop_havoc[_k] = [CELLS, "D.dom:Int"] + OUTER
+requires(c, "injective", lambda self: VBool(bc_injective(self)))
+ensures(c, "sound", lambda self, analysis_keys, block, v: VBool(
+    all_cells_ok(self, analysis_keys, block, v, current().ex.list_len(block._instructions, current().st).term)),
+    note="for every analysis key: the block's cell admits the key's value in every visit of the block that gets past all of its "
+         "assert / return / err instructions")
+ensures(c, "injective", lambda self: VBool(bc_injective(self)))
+invariant(c, 1, "key", lambda it, i, self, analysis_keys, block, v: And(
+    i <= Len(it), VBool(bc_injective(self)), VBool(all_cells_ok(self, analysis_keys, block, v, z3.IntVal(0), upto_keys=i.term))),
+    label="initialised")
+invariant(c, 2, "ins", lambda it, i, self, analysis_keys, block, v: And(
+    i <= Len(it), VBool(bc_injective(self)), VBool(all_cells_ok(self, analysis_keys, block, v, i.term))), label="prefix_sound")
+for _k in (3, 4, 5, 6):
+    invariant(c, _k, "key", lambda it, i, self, analysis_keys, block, v, i_ins: And(
+        i <= Len(it), VBool(bc_injective(self)), VBool(all_cells_ok(self, analysis_keys, block, v, i_ins.term + 1))),
+        label=f"through_ins_{_k}")
+must_fail(c, "admits_every_visit", lambda self, analysis_keys, block, v: VBool(all_cells_ok(self, analysis_keys, block, v, z3.IntVal(0))))
+
+# precision (C03): a block that ends the program unsuccessfully (err, or return of the literal 0) keeps nothing but the null set
+from spec.ghost import HASINTLIT, INTLIT   # noqa: E402
+
+
+def kills(ins_term):
+    """the instruction makes every visit of the block unsuccessful: err, or `return` whose operand is the literal 0"""
+    ctx = current()
+    a0 = arg0_of(ins_term)
+    known = IsInstance(a0, "KnownStackValue").term
+    K = ctx.ex.ct.cls("KnownStackValue")
+    kref = next(v for _, v in a0.alts if v.cls is K)
+    lit_ins, _ = ctx.ex.read_field(kref, K, "_ins", ctx.st)
+    ret0 = z3.And(_isinst(ins_term, ["Return"]), known, HASINTLIT(lit_ins.term), INTLIT(lit_ins.term) == 0)
+    return z3.Or(_isinst(ins_term, ["Err", "TealerCustomErrInstruction"]), ret0)
+
+
+def killed_prefix(block, upto):
+    ctx = current()
+    m = z3.Int(fresh_name("km"))
+    im = ctx.ex.list_get(block._instructions, m, ctx.st).term
+    return z3.Exists([m], z3.And(m >= 0, m < upto, kills(im)))
+
+
+def cells_null(self, keys, block):
+    x = z3.Int(fresh_name("nx"))
+    return _all_j(keys, lambda j, k: z3.ForAll([x], z3.Implies(g_(VStr(k), dsel(bc_inner(self, k), block.term), x),
+                                                                g_(VStr(k), NULLV(k), x))))
+
+
+ensures(c, "dead_block_null", lambda self, analysis_keys, block: VBool(z3.Implies(
+    killed_prefix(block, current().ex.list_len(block._instructions, current().st).term), cells_null(self, analysis_keys, block))),
+    note="a block with an err, or a return of the literal 0, keeps only the null set for every key (no value is reported as "
+         "possible on a path that cannot succeed)")
+invariant(c, 2, "ins", lambda it, i, self, analysis_keys, block: VBool(z3.Implies(killed_prefix(block, i.term),
+                                                                               cells_null(self, analysis_keys, block))), label="dead_so_far")
+for _k in (3, 5):
+    invariant(c, _k, "key", lambda it, i, self, analysis_keys, block, i_ins: VBool(z3.Implies(
+        killed_prefix(block, i_ins.term), cells_null(self, analysis_keys, block))), label=f"dead_kept_{_k}")
+
+
+def _cells_null_upto(self, keys, block, upto):
+    x = z3.Int(fresh_name("nx"))
+    return _all_j(keys, lambda j, k: z3.ForAll([x], z3.Implies(g_(VStr(k), dsel(bc_inner(self, k), block.term), x),
+                                                                g_(VStr(k), NULLV(k), x))), upto=upto)
+
+
+for _k in (4, 6):
+    invariant(c, _k, "key", lambda it, i, self, analysis_keys, block, i_ins: VBool(z3.And(
+        z3.Implies(killed_prefix(block, i_ins.term), cells_null(self, analysis_keys, block)),
+        _cells_null_upto(self, analysis_keys, block, i.term))), label=f"nulled_{_k}")
+
+
+# ---- _update_gtxn_constraints -----------------------------------------------------------------------------------------------
+import contracts.detectors as _det          # noqa: E402  (Function.transaction_context, field types of the context)
+from spec.keys import valid_key, key_kind   # noqa: E402
+GKF = z3.Function("GKF", z3.IntSort(), z3.StringSort(), z3.StringSort())   # the key of `gtxn <i> <field>` information
+KH = "tealer/analyses/dataflow/transaction_context/utils/key_helpers.py::"
+ensures(REGISTRY[KH + "get_gtxn_at_index_key"], "name", lambda idx, base_key, result: VBool(result.term == GKF(idx.term, base_key.term)),
+        naming=True)
+
+
+def own_indices(self, block):
+    """the list function.transaction_context(block).group_indices"""
+    return _det.ctx_of(fn_of(self), block).group_indices
+
+
+def _in_list(lst, t):
+    ctx = current()
+    j = z3.Int(fresh_name("gj"))
+    n = ctx.ex.list_len(lst, ctx.st).term
+    return z3.Exists([j], z3.And(j >= 0, j < n, ctx.ex.list_get(lst, j, ctx.st).term == t))
+
+
+def bc_cell(self, kterm, block, st=None):
+    return dsel(inner_of(self._block_contexts, kterm, st), block.term, st)
+
+
+def gtxn_cell_post(self, kterm, ind, block, old):
+    """the cell of GKF(ind, k) after the call, in terms of the entry heap"""
+    x = z3.Int(fresh_name("gx"))
+    gk = GKF(ind, kterm)
+    new = g_(VStr(gk), bc_cell(self, gk, block), x)
+    both = z3.And(g_(VStr(gk), bc_cell(self, gk, block, old.st), x), g_(VStr(gk), bc_cell(self, kterm, block, old.st), x))
+    return z3.ForAll([x], new == z3.If(_in_list(own_indices(self, block), ind), both, g_(VStr(gk), NULLV(gk), x)))
+
+
+def gtxn_written(self, keys, block, d, b, upto_keys, cur_key=None, upto_ind=None):
+    ind = z3.Int(fresh_name("wi"))
+    mp = current().ex.dict_map(self._block_contexts, current().st)
+    full = _some_j(keys, lambda j, k: z3.Exists([ind], z3.And(ind >= 0, ind < 16, d == z3.Select(mp, GKF(ind, k)))), upto_keys)
+    if cur_key is not None:
+        full = z3.Or(full, z3.Exists([ind], z3.And(ind >= 0, ind < upto_ind, d == z3.Select(mp, GKF(ind, cur_key)))))
+    return z3.And(b == block.term, full)
+
+
+def gtxn_frame(self, keys, block, old, cur_st, upto_keys=None, cur_key=None, upto_ind=None):
+    d, b = z3.Int(fresh_name("fd")), z3.Int(fresh_name("fb"))
+    return z3.ForAll([d, b], z3.Implies(z3.Not(gtxn_written(self, keys, block, d, b, upto_keys, cur_key, upto_ind)),
+                                        z3.Select(z3.Select(_cells(cur_st), d), b) == z3.Select(z3.Select(_cells(old.st), d), b)))
+
+
+def gtxn_pre(self, keys, block):
+    ctx = current()
+    st = ctx.st
+    dom = ctx.ex.dict_dom(self._block_contexts, st)
+    ind = z3.Int(fresh_name("pi"))
+
+    def one(j, k):
+        gk = GKF(ind, k)
+        return z3.And(valid_key(VStr(k)).term, key_kind(VStr(k)).term == 0, z3.Select(dom, k), dhas(inner_of(self._block_contexts, k), block.term),
+                      z3.ForAll([ind], z3.Implies(z3.And(ind >= 0, ind < 16),
+                                                  z3.And(z3.Select(dom, gk), dhas(inner_of(self._block_contexts, gk), block.term)))))
+    return VBool(_all_j(keys, one))
+
+
+c = contract(G + "_update_gtxn_constraints", params={"self": SELF, "keys_with_gtxn": KEYS, "block": BB}, returns=T.NoneT,
+             modifies=[CELLS], tags=["C06", "C07", "C08", "C09", "C10"])
+c.loop_havoc = {1: [CELLS], 2: [CELLS]}
+requires(c, "has_context", lambda self, block: _det.has_ctx(fn_of(self), block))
+requires(c, "injective", lambda self: VBool(bc_injective(self)))
+requires(c, "cells_exist", lambda self, keys_with_gtxn, block: gtxn_pre(self, keys_with_gtxn, block))
+
+
+def _gkf_view():
+    """the `view` clause of get_gtxn_at_index_key's contract (exhaustively checked over the key space, bounded/keyspace.py),
+    for every position and base key"""
+    from spec.keys import KEYKIND, KEYIDX, KEYBASE, valid_key_term
+    i, k = z3.Int("vi"), z3.String("vk")
+    g = GKF(i, k)
+    return VBool(z3.ForAll([i, k], z3.Implies(z3.And(i >= 0, i < 16, valid_key_term(k), KEYKIND(k) == 0),
+                                              z3.And(valid_key_term(g), KEYKIND(g) == 1, KEYIDX(g) == i, KEYBASE(g) == k)),
+                           patterns=[GKF(i, k)]))
+
+
+assumes(c, "gtxn_key_view", lambda: _gkf_view())
+ensures(c, "cells", lambda self, keys_with_gtxn, block, old: VBool(_all_j(keys_with_gtxn, lambda j, k: z3.ForAll(
+    [z3.Int("ci")], z3.Implies(z3.And(z3.Int("ci") >= 0, z3.Int("ci") < 16), gtxn_cell_post(self, k, z3.Int("ci"), block, old))))),
+    note="for every base key k and position i: the cell of `gtxn i k` keeps gamma(old cell) n gamma(cell of k) if i is a possible "
+         "own index of the block, and the null set otherwise")
+ensures(c, "frame", lambda self, keys_with_gtxn, block, old, new: VBool(gtxn_frame(self, keys_with_gtxn, block, old, new.st)))
+invariant(c, 1, "key", lambda it, i: i <= Len(it), label="index")
+invariant(c, 1, "key", lambda it, i, self, keys_with_gtxn, block, entry: VBool(_all_j(keys_with_gtxn, lambda j, k: z3.ForAll(
+    [z3.Int("ci")], z3.Implies(z3.And(z3.Int("ci") >= 0, z3.Int("ci") < 16), gtxn_cell_post(self, k, z3.Int("ci"), block, entry))),
+    upto=i.term)), label="keys_done")
+invariant(c, 1, "key", lambda it, i, self, keys_with_gtxn, block, entry, cur: VBool(
+    gtxn_frame(self, keys_with_gtxn, block, entry, cur.st, upto_keys=i.term)), label="frame_so_far")
+invariant(c, 2, "ind", lambda it, i: i <= Len(it), label="index2")
+invariant(c, 2, "ind", lambda it, i, self, keys_with_gtxn, block, entry, i_key: VBool(_all_j(keys_with_gtxn, lambda j, k: z3.ForAll(
+    [z3.Int("ci")], z3.Implies(z3.And(z3.Int("ci") >= 0, z3.Int("ci") < 16), gtxn_cell_post(self, k, z3.Int("ci"), block, entry))),
+    upto=i_key.term)), label="keys_done2")
+invariant(c, 2, "ind", lambda it, i, self, key, block, entry: VBool(z3.ForAll(
+    [z3.Int("ci")], z3.Implies(z3.And(z3.Int("ci") >= 0, z3.Int("ci") < i.term), gtxn_cell_post(self, key.term, z3.Int("ci"), block, entry)))),
+    label="positions_done")
+invariant(c, 2, "ind", lambda it, i, self, keys_with_gtxn, key, block, entry, cur, i_key: VBool(
+    gtxn_frame(self, keys_with_gtxn, block, entry, cur.st, upto_keys=i_key.term, cur_key=key.term, upto_ind=i.term)), label="frame_so_far2")
+must_fail(c, "cells_unchanged", lambda old, new: VBool(_cells(new.st) == _cells(old.st)))
